@@ -4,9 +4,11 @@ import (
 	"fmt"
 	"reflect"
 	"strings"
+	"sync/atomic"
 	"unsafe"
 
 	"github.com/mit-pdos/go-nfsd/fh"
+	"github.com/mit-pdos/go-nfsd/fstxn"
 	"github.com/mit-pdos/go-nfsd/inode"
 )
 
@@ -609,6 +611,137 @@ var scenarios = []scenario{
 		lo := s.mk("mkdir", s.root(), "lo")
 		s.opRename(s.root(), "y1", lo, "y1")
 		s.opRename(hi, "x2", lo, "y1")
+	}},
+	{"cross-directory renames over an existing target, the four inodes in all 24 orders", func(s *seqRun) {
+		// ranks of (source directory, source, target directory, target) among the four numbers
+		var perms [][4]int
+		var rec func(cur []int, used [4]bool)
+		rec = func(cur []int, used [4]bool) {
+			if len(cur) == 4 {
+				perms = append(perms, [4]int{cur[0], cur[1], cur[2], cur[3]})
+				return
+			}
+			for v := 0; v < 4; v++ {
+				if !used[v] {
+					u := used
+					u[v] = true
+					rec(append(append([]int{}, cur...), v), u)
+				}
+			}
+		}
+		rec(nil, [4]bool{})
+		for pi, r := range perms {
+			base := uint64(300 + 10*pi)
+			s.pokeInodeAlloc(base + uint64(r[0]))
+			fd := s.mk("mkdir", s.root(), fmt.Sprintf("s%02d", pi))
+			s.pokeInodeAlloc(base + uint64(r[2]))
+			td := s.mk("mkdir", s.root(), fmt.Sprintf("t%02d", pi))
+			if fd == nil || td == nil {
+				return
+			}
+			s.pokeInodeAlloc(base + uint64(r[1]))
+			s.mk("create", fd, "x")
+			s.pokeInodeAlloc(base + uint64(r[3]))
+			s.mk("create", td, "g")
+			s.opRename(fd, "x", td, "g")
+			s.opLookup(td, "g")
+		}
+	}},
+	{"the gap in getShrink: another client's request while a WRITE helps the shrinker", func(s *seqRun) {
+		// WRITE and SETATTR give the file's lock back to help a pending truncation (getShrink: lock,
+		// see the shrink, abort, DoShrink, lock again).  Whatever another client does in between must
+		// be seen when the lock is taken again: the handle may have died (variant A), the file may be
+		// shrinking once more (variant B).  Background shrinkers are held at the start of their first
+		// transaction (a legal schedule), so the truncations stay pending; the other client's requests
+		// are issued from the observer hook of the WRITE's own goroutine.
+		gate := make(chan struct{})
+		var gateOpen int32
+		old := fstxn.VerifObserver
+		var hook func(kind string)
+		fstxn.VerifObserver = func(kind string, op *fstxn.FsTxn, arg uint64) {
+			if kind == "begin" && curGid() != atomic.LoadUint64(&seqMainGid) && atomic.LoadInt32(&gateOpen) == 0 {
+				<-gate
+			}
+			if old != nil {
+				old(kind, op, arg)
+			}
+			if h := hook; h != nil && curGid() == atomic.LoadUint64(&seqMainGid) {
+				h(kind)
+			}
+		}
+		defer func() {
+			if atomic.CompareAndSwapInt32(&gateOpen, 0, 1) {
+				close(gate)
+			}
+			fstxn.VerifObserver = old
+		}()
+		blk := func(n uint64) *uint64 { v := n * 4096; return &v }
+		pending := func(h []byte) bool {
+			for _, p := range pendingShrinks(s.srv.VerifFsState()) {
+				if p == inumOf(h) {
+					return true
+				}
+			}
+			return false
+		}
+		// variant B: the file is truncated AGAIN after the WRITE has helped the first truncation to its end
+		f := s.mk("create", s.root(), "gapB")
+		s.opWrite(f, 600*4096, 4096, 2, pat(0x41, 4096))
+		s.opSetattr(f, blk(1600), timeHow{}, timeHow{})
+		s.opSetattr(f, blk(1000), timeHow{}, timeHow{}) // deferred to the (held) shrinker
+		if s.dead || !pending(f) {
+			return
+		}
+		aborted, fired := false, false
+		hook = func(kind string) {
+			if kind == "abort-end" {
+				aborted = true
+			}
+			if kind == "acq-req" && aborted && !fired && !pending(f) {
+				fired = true
+				hook = nil
+				main := atomic.LoadUint64(&seqMainGid)
+				s.opSetattr(f, blk(400), timeHow{}, timeHow{}) // the other client: pending again
+				atomic.StoreUint64(&seqMainGid, main)
+			}
+		}
+		s.opWrite(f, 800*4096, 1, 2, []byte{0x42})
+		hook = nil
+		s.opRead(f, 600*4096, 4096)
+		s.opGetattr(f)
+		// variant A: the file is removed and its number reused while the WRITE helps the shrinker
+		g := s.mk("create", s.root(), "gapA")
+		s.opWrite(g, 0, 4096, 2, pat(0x43, 4096))
+		s.opSetattr(g, blk(1400), timeHow{}, timeHow{})
+		s.opSetattr(g, blk(700), timeHow{}, timeHow{}) // deferred
+		if s.dead || !pending(g) {
+			return
+		}
+		fired = false
+		var n []byte
+		hook = func(kind string) {
+			if kind == "abort-end" && !fired {
+				fired = true
+				hook = nil
+				main := atomic.LoadUint64(&seqMainGid)
+				s.opRemove("remove", s.root(), "gapA")
+				if atomic.CompareAndSwapInt32(&gateOpen, 0, 1) {
+					close(gate) // the shrinkers run: the removed file's blocks and inode are given back
+				}
+				s.waitIdle()
+				s.pokeInodeAlloc(inumOf(g) - 1)
+				n = s.mk("create", s.root(), "gapA-new")
+				if n != nil {
+					s.opWrite(n, 0, 4096, 2, pat(0x44, 4096))
+				}
+				atomic.StoreUint64(&seqMainGid, main)
+			}
+		}
+		s.opWrite(g, 0, 4096, 2, pat(0x45, 4096)) // through the handle that died meanwhile
+		hook = nil
+		if n != nil {
+			s.opRead(n, 0, 4096)
+		}
 	}},
 	{"unstable writes, commit, restart", func(s *seqRun) {
 		f := s.mk("create", s.root(), "u")
